@@ -67,10 +67,19 @@ func cmdOne(args []string) int {
 	tier := fs.String("tier", "quick", "")
 	trace := fs.Bool("trace", false, "")
 	out := fs.String("out", "", "write the plan here")
+	traceOnly := fs.Bool("traceonly", false, "print only the trace hash")
 	fs.Parse(args)
 	cfg := drawConfig(*profile, *tier, newRand(*seed, "config"))
 	plan := &Plan{V: 1, Seed: *seed, Config: cfg}
 	w, res := executePlan(plan, false, *trace)
+	if *traceOnly {
+		if res.Error != "" {
+			fmt.Fprintln(os.Stderr, res.Error)
+			return 2
+		}
+		fmt.Println(res.Trace)
+		return 0
+	}
 	printRun(w, res, *trace)
 	if *out != "" {
 		writePlan(*out, plan)
